@@ -13,7 +13,7 @@ CLANG_FLAGS = ["clang++-14", "-std=c++17", "-O1", "-D__NO_INLINE__", "-Xclang", 
                "-fno-exceptions", "-fno-rtti", "-fno-strict-aliasing", "-gline-tables-only",
                "-DNAKEN_ASM_VERIF", "-I" + REPO, "-I" + os.path.join(VERIF, "include"), "-I" + os.path.join(VERIF, "harness"),
                "-Wno-everything", "-c", "-emit-llvm"]
-NATIVE_FLAGS = ["g++", "-std=c++17", "-O0", "-g", "-fno-omit-frame-pointer", "-fsanitize=address,undefined",
+NATIVE_FLAGS = ["clang++-14", "-std=c++17", "-O0", "-g", "-fno-omit-frame-pointer", "-fsanitize=address,undefined",
                 "-DNAKEN_ASM_VERIF", "-I" + REPO, "-I" + os.path.join(VERIF, "include"), "-I" + os.path.join(VERIF, "harness"), "-w"]
 
 _scratch = None
